@@ -17,4 +17,6 @@ let () =
   | _ :: "encspec" :: path :: _ -> D_encoders.run_spec path
   | _ :: "equiv" :: path :: _ -> D_equiv.run path
   | _ :: "equiv-spec" :: path :: _ -> D_equiv.run_spec path
+  | _ :: "readers" :: path :: _ -> D_readers.run_readers path
+  | _ :: "writers" :: path :: _ -> D_readers.run_writers path
   | _ -> prerr_endline "usage: driver <mode> <cases-file> [--thr N]"; exit 2
